@@ -54,7 +54,7 @@ func rangeCatalogue(fromH uint64, amount uint64) []Answer {
 		{Kind: "replay-first", K: int(fromH + 1)},
 		{Kind: "reorder"}, {Kind: "inner-gap"}, {Kind: "dup-inside"},
 		{Kind: "forged", K: 0}, {Kind: "forged", K: 1}, {Kind: "evil-sig"},
-		{Kind: "wrong-chain"}, {Kind: "invalid"},
+		{Kind: "wrong-chain"}, {Kind: "empty-chain"}, {Kind: "invalid"},
 		{Kind: "garbage-body"}, {Kind: "empty-body"}, {Kind: "boom-body"},
 		{Kind: "malformed-frame"}, {Kind: "truncated-frame"}, {Kind: "oversized-prefix"}, {Kind: "random-bytes"},
 		{Kind: "not-found"}, {Kind: "unknown-status"}, {Kind: "negative-status"}, {Kind: "invalid-status"},
